@@ -109,7 +109,7 @@ def _mk_ext(rng, kind, nprev=None):
 def _mk_hdr(rng, kind, ps_mode, sq_mode, nprev=None, version=1):
     """ps_mode/sq_mode: (value_nonzero, hash_present)"""
     ps = _pick_int(rng, U32) if ps_mode[0] else 0
-    sq = _pick_int(rng, U64) if sq_mode[0] else 0
+    sq = _pick_int(rng, U32) if sq_mode[0] else 0
     return {"kind": "hdr", "key": rng.randrange(8), "version": version, "psize": ps,
             "phash": _hexb(rng, 32) if ps_mode[1] else None, "seq": sq,
             "backlink": _hexb(rng, 32) if sq_mode[1] else None, "ext": _mk_ext(rng, kind, nprev)}
